@@ -1,7 +1,7 @@
 /* runner: run a command under a wall-clock limit, optional RLIMIT_FSIZE (SIGXFSZ ignored) and
  * RLIMIT_AS, and report how it ended on fd 3 as one line:
  *   exit=<n|-1> sig=<n|0> timeout=<0|1> maxrss_kb=<n> wall_ms=<n>
- * usage: runner <timeout_ms> <fsize_bytes|-1> <as_mb|-1> <sigpipe: d|i> -- cmd args...
+ * usage: runner <timeout_ms> <fsize_bytes|-1> <as_mb|-1> <sigpipe: d|i> <status-fd> -- cmd args...
  * No property logic lives here. */
 #define _GNU_SOURCE
 #include <stdio.h>
@@ -21,17 +21,18 @@ static long now_ms(void) {
 }
 
 int main(int argc, char **argv) {
-  if (argc < 7) { fprintf(stderr, "usage\n"); return 99; }
+  if (argc < 8) { fprintf(stderr, "usage\n"); return 99; }
   long tmo = atol(argv[1]);
   long long fsz = atoll(argv[2]);
   long asmb = atol(argv[3]);
   char sp = argv[4][0];
-  char **cmd = argv + 6;
+  int sfd = atoi(argv[5]);
+  char **cmd = argv + 7;
   long t0 = now_ms();
   pid_t pid = fork();
   if (pid < 0) return 98;
   if (pid == 0) {
-    close(3);
+    close(sfd);
     if (fsz >= 0) {
       struct rlimit rl = { (rlim_t)fsz, (rlim_t)fsz };
       setrlimit(RLIMIT_FSIZE, &rl);
@@ -67,6 +68,6 @@ int main(int argc, char **argv) {
   int n = snprintf(line, sizeof line, "exit=%d sig=%d timeout=%d maxrss_kb=%ld wall_ms=%ld\n",
                    WIFEXITED(status) ? WEXITSTATUS(status) : -1,
                    WIFSIGNALED(status) ? WTERMSIG(status) : 0, timed_out, ru.ru_maxrss, wall);
-  if (write(3, line, n) < 0) return 97;
+  if (write(sfd, line, n) < 0) return 97;
   return 0;
 }
